@@ -27,6 +27,18 @@ CLAIMS = {
  'C20': dict(tech='effect analysis: static/shared-state inventory + must-fact guard at every footer store (TermFlow) + auto-trait impl inventory',
    text='Decides absence of shared mutable state, which is what every schedule and interleaving depends on: no mutable or interior-mutable static other than the empty-chunk sentinel, no atomics/thread-locals/locks anywhere in the crate, and every store to any chunk-footer field in every inlined arena entry point is dominated by the false edge of is_empty(F) for the same footer (or targets a footer created in the same call), so the sentinel shared by all chunk-less arenas on all threads is never written; Bump is Send for every MIN_ALIGN, has no Sync impl and has Cell fields. Schedules themselves are not explored.',
    ref='DESIGN.md section 4 C20'),
+ 'C07': dict(tech='abstract interpretation of MIR with a symbolic allocation limit; who-may-read inventory',
+   text='Proves the limit property in its semantic form for every path: each arena entry point that can reach the acquirer is analysed with allocation_limit = Some(LIMIT) for a symbolic LIMIT, and at every call of the global alloc the facts of the path must entail n <= saturating_sub(LIMIT, allocated_bytes), n being exactly what the acquirer adds to the counter for that chunk and allocated_bytes the counter of the arena being extended (so n == 0 or held + n <= LIMIT); with limit = None the acquirer is still reached. The fast path, dealloc, shrink and grow never read the limit; set_allocation_limit/allocation_limit agree on the field. Which candidate size is chosen under the small-limit bypass is not decided.',
+   ref='DESIGN.md section 4 C07'),
+ 'C10': dict(tech='TermFlow term identities on the iterator code + finger-store classification and exact-bump obligations',
+   text='Decides the structural content of the property: the per-chunk item is exactly (finger, footer - finger); the raw iterator starts at the current chunk, stops only at the sentinel, advances along prev; the safe iterator yields the same pairs and needs &mut self; no finger store can make iteration report never-allocated bytes or hide live ones (no FULL/OTHER store, reclaim bounded by the released block), and every bump lowers the finger by exactly the rounded size below the aligned old finger, which is the per-step fact behind no-padding for uniform histories. The inductive statement over whole histories is argued from these, not computed.',
+   ref='DESIGN.md section 4 C10'),
+ 'C11': dict(tech='TermFlow with the user callback as an opaque havocking call: must-fact gating, term identity, store classification',
+   text='Decides for every path of alloc_try_with / try_alloc_try_with / alloc_slice_try_fill_with: the initialiser is only called under the success fact of the reservation; the error is moved out of the slot by exactly one ptr::read and is the value returned; the Err arm rewinds with a SAVED store (finger loaded before the reservation, same chunk) or an EMPTY store (footer address, fresh chunk), both gated by is_last_allocation(result) and re-establishing the chunk invariant; the slice variant releases exactly the pointer/layout it reserved, only on the callback Err edge, and returns the callback error. That the next identical request is served without the global allocator follows from these plus C01/C18 and is not separately observed.',
+   ref='DESIGN.md section 4 C11'),
+ 'C12': dict(tech='TermFlow on the Allocator/Alloc impls: argument/term identity, alignment lemmas, copy-discipline proofs (fresh block or halving lemma), CFG error-path rule',
+   text='Decides the glue and the per-operation obligations of the allocator contract for symbolic layouts and MIN_ALIGN: forwarded arguments and returned slice lengths, zero-fill of exactly [old.size..], realloc dispatch; returned blocks aligned to the new layout and MIN_ALIGN; chunk invariant at every finger store including deallocate (never reclaims past the released block); in-place grow requested with the right size/alignment under the right gate; copy counts equal min(old,new); every copy_nonoverlapping has a disjointness proof, otherwise it must be ptr::copy; no store/copy precedes an Err return. That std collections over the allocator behave identically is not decided.',
+   ref='DESIGN.md section 4 C12'),
 }
 
 NOT_YET = 'check not built yet (build in progress, see DESIGN.md section 9)'
